@@ -100,9 +100,12 @@ func VerifC03BaseExporterPersistent() {
 	running, late := 0, 0
 	stopped := false
 	healthy := false
-	failures := vChoice("backend-failures", 2) // the first n calls of the first exporter fail retryably
-	if withRetry {
-		failures++ // with retry at least one failure: the request reaches the back-off wait
+	failures := 1 // the first n calls of the first exporter fail retryably; with retry the request reaches the back-off wait
+	if !withRetry || vParam("moreFailures") == 1 {
+		failures = vChoice("backend-failures", 2)
+		if withRetry {
+			failures++
+		}
 	}
 	mk := func() *BaseExporter {
 		led := vNewLedger()
